@@ -31,6 +31,7 @@ var watchedFields = map[string]bool{
 type heldLock struct {
 	cls  string
 	excl bool
+	sess token.Pos // the Lock/RLock call that started this hold: one critical section
 }
 
 type siteRow struct {
@@ -157,7 +158,11 @@ func intersectHeld(a, b []heldLock) []heldLock {
 	for _, x := range a {
 		for _, y := range b {
 			if x.cls == y.cls {
-				out = append(out, heldLock{x.cls, x.excl && y.excl})
+				s := x.sess
+				if y.sess != x.sess {
+					s = token.NoPos // held on entry from several call sites: the caller's section
+				}
+				out = append(out, heldLock{x.cls, x.excl && y.excl, s})
 				break
 			}
 		}
@@ -269,7 +274,7 @@ func (c *sitesCtx) handleCalls(fn string, n ast.Node, held []heldLock) []heldLoc
 		case *ast.CallExpr:
 			if cls, acq, excl, ok := c.lockOp(x); ok {
 				if acq {
-					held = append(removeHeld(held, cls), heldLock{cls, excl})
+					held = append(removeHeld(held, cls), heldLock{cls, excl, x.Pos()})
 				} else {
 					held = removeHeld(held, cls)
 				}
@@ -527,5 +532,31 @@ func genSites() {
 		}
 	}
 	b.WriteString("Definition sites : list site :=\n  [" + strings.Join(rows, ";\n   ") + "].\n")
+	// split critical sections: a function that touches the fields guarded by one lock in two or
+	// more separate Lock...Unlock sections (check-then-act is then not atomic: results need not
+	// equal any sequential order of the calls)
+	type fk struct{ fn, cls string }
+	sessions := map[fk]map[token.Pos]bool{}
+	for _, r := range all {
+		for _, h := range r.held {
+			if h.sess == token.NoPos {
+				continue
+			}
+			k := fk{r.fn, h.cls}
+			if sessions[k] == nil {
+				sessions[k] = map[token.Pos]bool{}
+			}
+			sessions[k][h.sess] = true
+		}
+	}
+	var splits []string
+	for k, s := range sessions {
+		if len(s) > 1 {
+			splits = append(splits, fmt.Sprintf("(\"%s\", \"%s\", %d)", k.fn, k.cls, len(s)))
+		}
+	}
+	sort.Strings(splits)
+	b.WriteString("\n(* (function, lock class, number of separate critical sections in which the function touches\n   fields guarded by that lock), for every function with more than one *)\n")
+	b.WriteString("Definition split_critical_sections : list (string * string * nat) :=\n  [" + strings.Join(splits, "; ") + "].\n")
 	writeIfChanged("Sites.v", b.String())
 }
